@@ -69,9 +69,21 @@ def same(a, b):
     return bool(np.allclose(a, b, rtol=1e-11, atol=1e-13, equal_nan=True))
 
 
+class JobError:
+    def __init__(self, name, cfg, exc):
+        self.text = f"{name}({cfg}) raised {type(exc).__name__}: {exc}"
+
+
 def run_single(job_list):
+    """Single-threaded baseline; a call that raises yields a JobError (reported by the caller)."""
+    out = []
     with np.errstate(all="ignore"):
-        return [thunk() for _, _, thunk in job_list]
+        for name, cfg, thunk in job_list:
+            try:
+                out.append(thunk())
+            except Exception as e:
+                out.append(JobError(name, cfg, e))
+    return out
 
 
 def run_concurrent(job_list, expected, nthreads, reps):
@@ -90,6 +102,8 @@ def run_concurrent(job_list, expected, nthreads, reps):
                 order = order[(t + r) % len(order):] + order[:(t + r) % len(order)]
                 for j in order:
                     name, cfg, thunk = job_list[j]
+                    if isinstance(expected[j], JobError):
+                        continue
                     with np.errstate(all="ignore"):
                         got = thunk()
                     calls[t] += 1
@@ -118,6 +132,7 @@ def main(argv):
     job_list = jobs(ts, seed)
     expected = run_single(job_list)
     calls, mismatches, errors = run_concurrent(job_list, expected, nthreads, reps)
+    errors = [e.text for e in expected if isinstance(e, JobError)] + errors
     for m in mismatches[5:]:
         m.pop("got", None)
         m.pop("expected", None)
